@@ -12,7 +12,7 @@ import (
 func TestC18(t *testing.T) {
 	runProp(t, "C18", func(e *env) {
 		r := e.r
-		e.rapidStage("rounds", "rapid", e.cfg.N(800, 40000), func(rt *rapid.T) {
+		e.rapidStage("rounds", "rapid", e.cfg.N(560, 40000), func(rt *rapid.T) {
 			nd := rapid.IntRange(4, 24).Draw(rt, "ndocs")
 			c := &core.Case{Prop: "C18", Kind: "workload"}
 			deep := map[int]bool{}
@@ -20,6 +20,7 @@ func TestC18(t *testing.T) {
 			midDeep := map[int]bool{}
 			big := map[int]bool{}
 			prefixOf := map[int]bool{}
+			longNum := map[int]bool{}
 			for i := 0; i < nd; i++ {
 				var b []byte
 				dk := rapid.IntRange(0, 7).Draw(rt, "dockind")
@@ -39,6 +40,9 @@ func TestC18(t *testing.T) {
 					big[i], prefixOf[i] = true, true
 					continue
 				}
+				if i == 3 && rapid.IntRange(0, 1).Draw(rt, "longnumround?") == 0 {
+					dk = 10 // number tokens beyond every fast path and every machine type, in every other round
+				}
 				if i == 0 && rapid.IntRange(0, 5).Draw(rt, "deepround?") == 0 {
 					dk = 99 // one depth-limit input in about one round out of six
 				}
@@ -53,6 +57,17 @@ func TestC18(t *testing.T) {
 					}
 					b = gen.NestSpec{Depth: d, Pattern: gen.NestPatterns[rapid.IntRange(0, len(gen.NestPatterns)-1).Draw(rt, "pat")], Close: cl, Bottom: "1"}.Build()
 					deep[i] = true
+				case 10:
+					// integer / float tokens of 19..1000 digits (error paths of the integer readers,
+					// slow paths of the float parser), distinct text per input, with more input behind
+					n := []int{19, 20, 21, 25, 31, 32, 33, 34, 35, 36, 40, 64, 65, 130, 300, 801, 1000}[rapid.IntRange(0, 16).Draw(rt, "ndigits")]
+					b = append(b, []string{"", "-", " ", "\n-"}[rapid.IntRange(0, 3).Draw(rt, "sign")]...)
+					for k := 0; k < n; k++ {
+						b = append(b, byte('1'+(k*7+i)%9))
+					}
+					b = append(b, []string{"", "", ".5", "e3", "e-400", ".25e+7"}[rapid.IntRange(0, 5).Draw(rt, "numtail")]...)
+					b = append(b, []string{"", ",", " ,123456789012345678901234567890123456]", "]", " \n"}[rapid.IntRange(0, 4).Draw(rt, "after")]...)
+					longNum[i] = true
 				case 6:
 					b = gen.NestSpec{Depth: rapid.IntRange(2, 40).Draw(rt, "depth"), Pattern: gen.NestPatterns[rapid.IntRange(0, len(gen.NestPatterns)-1).Draw(rt, "pat")],
 						Close: rapid.IntRange(0, 40).Draw(rt, "close"), Bottom: []string{"1", `"x"`, "", "]"}[rapid.IntRange(0, 3).Draw(rt, "bottom")]}.Build()
@@ -124,6 +139,10 @@ func TestC18(t *testing.T) {
 						fn = skipFamily[fn%len(skipFamily)]
 						r.Label("op.on-depth-limit-input")
 					}
+				}
+				if longNum[doc] {
+					fn = []int{7, 16, 5, 7, 16, 20, 0, 1, 4, 16, fn, fn}[fn%12]
+					r.Label("op.on-long-number-input")
 				}
 				if big[doc] {
 					// validity and skipping only: the two views differ in exactly that
